@@ -199,6 +199,9 @@ theorem extractBbox_congr {s s' : State} (h : SameTree s s') (g : Id) : extractB
 theorem sameTree_cache (s : State) (c : Id → Option BBox) : SameTree s { s with cache := c } :=
   ⟨rfl, rfl, rfl, rfl, rfl, rfl, rfl, rfl⟩
 
+theorem sameTree_blocks (s : State) (b : Id → List Nat) : SameTree s { s with blocks := b } :=
+  ⟨rfl, rfl, rfl, rfl, rfl, rfl, rfl, rfl⟩
+
 theorem sameTree_dirty (s : State) (d : Id → Bool) : SameTree s { s with dirty := d } :=
   ⟨rfl, rfl, rfl, rfl, rfl, rfl, rfl, rfl⟩
 
@@ -321,6 +324,7 @@ theorem observe_same (s : State) (o : Obs) : SameTree s (observe s o).1 := by
     · split <;> exact SameTree.refl s
   | contains g x => exact SameTree.refl s
   | isVisible x => simp only [observe]; split <;> exact SameTree.refl s
+  | getter x => exact SameTree.refl s
   | touch xs => exact touchAll_same s xs
 
 end PsdVerif.TreeSt
